@@ -20,7 +20,7 @@ def run(ctx):
                 '(IHL is always 5 in this code base); payload bytes (length-only message: fragment() only cuts)',
         assumptions=['length-only Message {chunks: [], len}: the real Message::cut runs on it; justified because fragment() never reads payload bytes',
                      'incoming fragment satisfies offset + payload/8 <= 8191 (it belongs to a representable datagram)'],
-        jobs=8, timeout=1500 if ctx.quick else 3000)
+        jobs=8, timeout=3000 if ctx.quick else 5000)
     yield frag_content_part(ctx)
 
 
